@@ -93,7 +93,7 @@ def replay(prop, path):
 # =====================================================================================================  C13
 
 LEXER_MC = {"quick": ["gen3", "bnd3", "ml7", "str5", "num4", "dir4", "asm4", "word4", "ctx3"],
-            "thorough": ["gen3", "bnd3", "ml7", "gen4", "str5", "str7", "num5", "dir6", "asm6", "word5", "ctx3"]}
+            "thorough": ["gen3", "bnd3", "ml7", "gen4", "str5", "str7", "num5", "dir5", "dir6", "asm6", "word5", "ctx3"]}
 
 
 def lexer_mc_and_replay(c, tier, limit_replay=None):
